@@ -429,6 +429,8 @@ def summarise(prop, engine, lines, known):
             agg["harness_errors"].append({"i": ln["i"], "trace": ln["harness_error"][-2500:]})
             continue
         agg["runs"] += 1
+        if "fixed_plan" in ln:
+            agg["fixed_plans_run"] = agg.get("fixed_plans_run", 0) + 1
         agg["wall_run_total"] += ln.get("wall", 0.0)
         if ln.get("discarded"):
             agg["discarded"] += 1
@@ -618,6 +620,8 @@ def write_evidence(prop, tier, seed, aggs, det_reports, wall_total, n_workers, v
             "logical_time": a["logical"],
             "distinct_cells": len(a["cells"]),
             "truncated_workers": a["truncated"],
+            "fixed_plans_run": a.get("fixed_plans_run", 0),
+            "fixed_plans_total": len(fixed_plans_for(a["engine"], tier)),
             "known_findings_hit": a["known"],
             "wall_s": a["wall_s"],
             "runs_per_hour": round(a["runs"] / max(a["wall_s"], 1e-6) * 3600),
